@@ -9,7 +9,7 @@ from gen import problems
 RULE = ("correspondence: direct resolve_constraints_by_exhaustive_search() / optimize_by_exhaustive_search() calls on "
         "problems whose whole mutation space has <= 1024 members (all but 0-5 positions frozen, optional codon / IUPAC "
         "/ choice constraints, 0-3 soft constraints, 0-3 weighted objectives), recorded and replayed by the Lean solver "
-        "model; non-trivial = at least 3 candidates were tried; oracle = independent brute force over the product of "
+        "model, with zero, one or several constraints carrying an is_focus flag; non-trivial = at least 3 candidates were tried; oracle = independent brute force over the product of "
         "choices_list on the real objects (feasibility and boosted totals from the real evaluate)")
 TRUSTED = ["harness recorder/replay", "brute-force oracle in harness/props/C06.py"]
 ASSUMPTIONS = ["objective totals are compared with 1e-9 relative tolerance (floats)",
@@ -19,6 +19,10 @@ ASSUMPTIONS = ["objective totals are compared with 1e-9 relative tolerance (floa
 def gen_cases(rng, n):
     for i in range(n):
         d = problems.rand_small_problem(rng, objectives=(i % 2 == 1))
+        if rng.random() < 0.35 and d["constraints"]:
+            # focus flags left on the constraints (none / one / several): the search must still test every constraint
+            k = rng.choice([1, 1, 2, 3])
+            d["focus"] = sorted(rng.sample(range(len(d["constraints"])), min(k, len(d["constraints"]))))
         yield dict(desc=d, op="exh_optimize" if i % 2 == 1 else "exh_resolve")
 
 
